@@ -80,7 +80,7 @@ func init() {
 		func(r *gen.Rand) []optSet {
 			names := []string{}
 			targets := []string{"es2015", "es2016", "es2017", "es2018", "es2019", "es2020", "es2021", "es2022", "esnext"}
-			names = append(names, "target="+targets[r.Intn(len(targets))])
+			names = append(names, "target="+targets[r.Intn(len(targets))]+pickS(r, "", "", ",fmt=iife", ",fmt=cjs"))
 			names = append(names, "target="+targets[r.Intn(3)]+pickS(r, "", ",ms", ",ms,mi,mw"))
 			n := "sup:" + lowerable[r.Intn(19)] + "=false"
 			if r.Bool() {
